@@ -206,8 +206,8 @@ MUTANTS = [
   "        !is_disabled && only_has_empty_balances && !is_in_flashloan && !is_in_receivership",
   "        only_has_empty_balances && !is_in_flashloan && !is_in_receivership", ["C16"]),
  ("c16-transfer-keeps-old-positions", M+"instructions/marginfi_account/transfer_account.rs",
-  "    old_account.lending_account = LendingAccount::zeroed();\n    old_account.set_flag(ACCOUNT_DISABLED, true);\n\n    emit!(MarginfiAccountTransferToNewAccount {",
-  "    old_account.set_flag(ACCOUNT_DISABLED, true);\n\n    emit!(MarginfiAccountTransferToNewAccount {", ["C16", "C02"]),
+  "    old_account.last_update = current_timestamp;\n    old_account.lending_account = LendingAccount::zeroed();\n    old_account.set_flag(ACCOUNT_DISABLED, true);\n\n    emit!(MarginfiAccountTransferToNewAccount {\n        header: AccountEventHeader {\n            signer: Some(ctx.accounts.authority.key()),\n            marginfi_account: ctx.accounts.new_marginfi_account.key(),\n            marginfi_account_authority: ctx.accounts.new_authority.key(),\n            marginfi_group: ctx.accounts.group.key(),\n        },\n        old_account: ctx.accounts.old_marginfi_account.key(),\n        old_account_authority: ctx.accounts.authority.key(),\n        new_account_authority: ctx.accounts.new_authority.key(),\n    });\n\n    Ok(())\n}\n\n#[derive(Accounts)]\npub struct TransferToNewAccount<",
+  "    old_account.last_update = current_timestamp;\n    old_account.set_flag(ACCOUNT_DISABLED, true);\n\n    emit!(MarginfiAccountTransferToNewAccount {\n        header: AccountEventHeader {\n            signer: Some(ctx.accounts.authority.key()),\n            marginfi_account: ctx.accounts.new_marginfi_account.key(),\n            marginfi_account_authority: ctx.accounts.new_authority.key(),\n            marginfi_group: ctx.accounts.group.key(),\n        },\n        old_account: ctx.accounts.old_marginfi_account.key(),\n        old_account_authority: ctx.accounts.authority.key(),\n        new_account_authority: ctx.accounts.new_authority.key(),\n    });\n\n    Ok(())\n}\n\n#[derive(Accounts)]\npub struct TransferToNewAccount<", ["C16", "C02"]),
  ("c17-deposit-limit-gt", M+"state/bank.rs",
   "            if total_deposits_amount >= deposit_limit {",
   "            if total_deposits_amount > deposit_limit + I80F48::ONE {", ["C17"]),
